@@ -367,6 +367,34 @@ def crashLine (args impl : List String) : String :=
     | _, _, _ => "bad-op | |"
   | _ => "bad-op | |"
 
+/-- skip <g0> <n> => first:<cells> second:<cells> third:<cells> gen:<g>
+    sequential semantics (`Crash.ReaderA.snap`): a reader attached at generation g0, n real publications,
+    two more calls. C03: publication order, and catch-up unless n is a positive multiple of 32767. -/
+def skipLine (args impl : List String) : String :=
+  match args.mapM String.toNat? with
+  | some [g0, n] =>
+    let f0 : Crash.FileA := { present := true, len := 72, magic0 := true, magic1 := true, size := 72,
+                              version := 1, gen := g0, cells := Crash.recCells 90 }
+    let r1 := ({} : Crash.ReaderA).snap f0
+    let gN := (List.range n).foldl (fun g _ => genFinish (genStart g)) g0
+    let fN : Crash.FileA := if n = 0 then f0 else { f0 with gen := gN, cells := Crash.recCells n }
+    let r2 := r1.snap fN
+    let r3 := r2.snap fN
+    let txt (c : List Nat) := Crash.cellsText c
+    let m := s!"first:{txt r1.cache} second:{txt r2.cache} third:{txt r3.cache} gen:{gN}"
+    let field (k : String) : String := ((impl.find? (fun t => t.startsWith (k ++ ":"))).map (fun t => (t.drop (k.length + 1)).toString)).getD "?"
+    let first := field "first"; let second := field "second"; let third := field "third"
+    let latest := if n = 0 then (if g0 % 2 = 0 ∧ g0 ≠ 0 then txt (Crash.recCells 90) else txt (List.replicate 7 0)) else txt (Crash.recCells n)
+    let exception_ := decide (n > 0 ∧ n % 32767 = 0 ∧ g0 % 2 = 0)
+    -- publication order: the second answer is the first one (cache) or the latest; never anything else
+    let order := (second == first || second == latest) && third == second
+    let catchup := exception_ || second == latest
+    let v := verdict "C03" true (order && catchup)
+    let tags := (if n ≥ 16384 then ["longSkip"] else ["shortSkip"]) ++ (if exception_ then ["multiple32767"] else []) ++
+      (if g0 % 2 = 1 then ["oddStart"] else []) ++ (if g0 + 2 * n ≥ 65536 then ["wrap"] else [])
+    s!"{m} | {v} | {String.intercalate "," tags}"
+  | _ => "bad-op | |"
+
 def processLine (line : String) : String :=
   let parts := line.splitOn " => "
   let req0 := (parts.headD "").trimAscii.toString.splitOn " " |>.filter (· ≠ "")
@@ -389,6 +417,7 @@ def processLine (line : String) : String :=
   | "sandwich" :: args => (DriverH.line "sandwich" args impl).getD "bad-op | |"
   | "cabi" :: args => (DriverH.line "cabi" args impl).getD "bad-op | |"
   | "slx" :: args => slxLine args impl
+  | "skip" :: args => skipLine args impl
   | "slaba" :: _ =>
     -- K1 replay on the real code only (a 360 000-step execution is not simulated by the model): the
     -- implementation's verdict is passed through
